@@ -1,6 +1,6 @@
 (* C11 model runner.  One case per line:
    <id> <cfg6bits> <preserve01> <wd> <cwd> <nprep> {d <path> | f <path> <tag> | l <path> <target> | h <path> <earlier file>}* <npush>
-        { B <title> <tag> | U <title> <nent> { (r <name> <tag> <mode> | d <name> <mode> | h <name> <tgt> | s <name> <tgt> | o <name>) <time> }* }*
+        { B <title> <tag> | M <nlayers> {<title> <tag>}* | U <title> <nent> { (r <name> <tag> <mode> | d <name> <mode> | h <name> <tgt> | s <name> <tgt> | o <name>) <time> }* }*
    strings are hex ("-" = empty); paths are absolute slash-separated strings; modes decimal.
    Pre-populated directories have mode 0755, files 0644.
    Output: <id> <verdicts>|<hexpath>:<dMODE|fTAGmMODE|lHEXTARGET>,... sorted by hexpath *)
@@ -65,9 +65,17 @@ let run_case id toks =
                ts := n_of_int (int_of_string (next ())) :: !ts
              done;
              ops := PDir (t, List.rev !ts, List.rev !es) :: !ops
+    | "M" -> let nl = int_of_string (next ()) in
+             let ls = ref [] in
+             for _ = 1 to nl do
+               let t = str_of_hex (next ()) in
+               let tag = int_of_string (next ()) in
+               ls := (t, n_of_int tag) :: !ls
+             done;
+             ops := PManifest (List.rev !ls) :: !ops
     | k -> failwith ("push kind " ^ k)
   done;
-  let (st, oks) = pushes g pres wd cwd { st_fs = fs0; st_names = [] } (List.rev !ops) in
+  let (st, oks) = pushes g pres wd cwd { st_fs = fs0; st_names = []; st_d2p = [] } (List.rev !ops) in
   let f = st.st_fs in
   let stamp p k = if inside wd p || k = 0 then "" else "@" ^ string_of_int k in
   let lines = List.map (fun (p, nd) ->
